@@ -183,6 +183,8 @@ def _outside(a, f):
         return "version / locktime / fee out of range"
     if any(not (0 <= v < 2 ** 32) for v in f["vouts"]):
         return "output index out of range"
+    if len({(bytes(u[0]), u[1]) for u in a[10]}) != len(a[10]):
+        return "the same outpoint reported twice"
     if a[2] is not None and len(a[2]) == 0:
         return "empty change address"
     if a[3]:
@@ -211,14 +213,15 @@ def _outside(a, f):
 _CACHE = {}
 
 
-def _run(a):
-    """run bits.tx.send_tx on the scenario -> ("ok", raw, descriptors) | ("err", exception, descriptors)"""
+def _run(a, fresh=False):
+    """run bits.tx.send_tx on the scenario -> ("ok", raw, descriptors) | ("err", exception, descriptors)
+    fresh=True (every IMPL call): really run the code; the property oracle may reuse the result of that run"""
     import bits
     import bits.rpc
     import bits.tx
     import curvectx
     key = repr(a)
-    if key in _CACHE:
+    if key in _CACHE and not fresh:
         return _CACHE[key]
     (sender_addr, recipient_addr, change_addr, keys, flag, frac, fee, version, locktime, total, unspents, draws) = a[:12]
     txoutset = {
@@ -252,7 +255,7 @@ def _run(a):
 
 
 def _send(*a):
-    r = _run(list(a))
+    r = _run(list(a), fresh=True)
     if r[0] == "err":
         raise r[1]
     return r[1]
@@ -560,19 +563,30 @@ def _draws(rng, k):
     return [rng.randrange(1, SECP_N) for _ in range(k)]
 
 
-def _utxos(rng, vouts, sats, spk):
-    return [(rng.randbytes(32), v, s, spk) for v, s in zip(vouts, sats)]
+def _utxos(rng, vouts, sats, spk, same_txid=False):
+    """same_txid: every output belongs to ONE funding transaction (same txid, different output indices)"""
+    one = rng.randbytes(32)
+    return [(one if same_txid else rng.randbytes(32), v, s, spk) for v, s in zip(vouts, sats)]
+
+
+# 8-decimal amounts whose binary64 product a * 1e8 falls BELOW the integer (int() would lose a satoshi; round() is exact):
+# 0.29, 0.57, 0.58, 1.13, 1.15, 4.35, 0.07 ... (computed here with plain floats, not with repo code)
+INEXACT_SATS = [k for k in [29000000, 57000000, 58000000, 113000000, 115000000, 435000000, 7000000, 14000000, 28000000, 56000000,
+                            1001, 1003, 2007, 4099, 8193, 16387, 1000003, 33333333, 99999999, 1234567, 20999999_99999999 // 7,
+                            251, 253, 507, 1013, 2029, 4057]
+                + list(range(100001, 100400, 2))
+                if int(R.sat_to_float(k) * 1e8) != k]
 
 
 def _send_case(rng, cls, kind, vouts, sats, frac=1.0, fee=1000, flag=1, version=1, locktime=0, m=2, nkeys=3, rk="p2wpkh",
-               change="p2pkh", signed=True, compressed=True, net="regtest", signing=None, **kw):
+               change="p2pkh", signed=True, compressed=True, net="regtest", signing=None, same_txid=False, **kw):
     keys = _keys(rng, nkeys if kind in ("multisig", "p2sh", "p2wsh", "p2sh-p2wsh") else 1)
     s_addr, spk, wifs = sender(kind, keys, m=m, net=net, compressed=compressed, signing=signing)
     rec = recipient(rk, rng, net)
     ch = recipient(change, rng, net) if change else None
     nsig = (len(vouts) if kind in SEGWIT_KINDS else 1) * len(wifs)
     return scenario(cls, s_addr, rec, ch, wifs if signed else [], flag if signed else None, frac, fee, version, locktime,
-                    _utxos(rng, vouts, sats, spk), _draws(rng, nsig + 1) if signed else [], **kw)
+                    _utxos(rng, vouts, sats, spk, same_txid), _draws(rng, nsig + 1) if signed else [], **kw)
 
 
 def _rand_sats(rng):
@@ -686,6 +700,30 @@ def gen_cases(rng, tier):
         A(_send_case(rng, "known-raw-sender-no-change", "multisig", [0, 3], [COIN, COIN], change=None, signed=False))
         A(_send_case(rng, "known-raw-recipient", "p2pkh", [0], [COIN], rk="raw", signed=False))
         A(_send_case(rng, "known-raw-recipient", "p2wpkh", [0], [COIN], rk="raw"))
+    # ---- signed segwit on the valid sub-domain with INEXACT float amounts (a*1e8 just below the integer): the amount committed to
+    #      by the BIP143 message must be the exact satoshi value, for every flag
+    for kind in SEGWIT_KINDS:
+        for flag in FLAGS:
+            A(_send_case(rng, "signed-segwit-inexact-amount", kind, [0], [rng.choice(INEXACT_SATS)], frac=rng.choice([1.0, 0.5]), flag=flag,
+                         m=1 if not T else rng.randrange(1, 3), nkeys=2, rk=rng.choice(RECIPIENTS)))
+        ks = rng.sample(INEXACT_SATS, 2)
+        A(_send_case(rng, "signed-segwit-inexact-amount-multi", kind, [0, 1], ks, frac=1.0, flag=rng.choice(FLAGS), m=1, nkeys=2))
+        if T:
+            ks = rng.sample(INEXACT_SATS, 3)
+            A(_send_case(rng, "signed-segwit-inexact-amount-multi", kind, [0, 1, 2], ks, frac=0.99, flag=rng.choice(FLAGS), m=1, nkeys=2))
+    # ---- several reported outputs of the SAME funding transaction (same txid, output indices 0..n-1), more than one needed
+    for kind in LEGACY_KINDS + SEGWIT_KINDS:
+        n = rng.randrange(2, 5)
+        A(_send_case(rng, "same-txid-unsigned", kind, list(range(n)), [COIN + rng.randrange(1000) for _ in range(n)], frac=1.0,
+                     signed=False, same_txid=True, change="p2pkh", m=rng.randrange(1, 4)))
+        A(_send_case(rng, "same-txid-unsigned", kind, rng.sample(range(6), 3), [COIN, 2 * COIN, 3 * COIN],
+                     frac=rng.choice([0.5, 0.9]), signed=False, same_txid=True, change="p2wpkh", version=rng.choice([1, 2])))
+    for kind in SEGWIT_KINDS:                  # valid on the unchanged tree: output index = position, everything selected
+        A(_send_case(rng, "same-txid-signed-segwit", kind, [0, 1], [COIN, COIN + 7], frac=1.0, flag=rng.choice(FLAGS), m=1, nkeys=2,
+                     same_txid=True))
+    A(_send_case(rng, "same-txid-signed-segwit", "p2wpkh", [0, 1, 2], [COIN, COIN, COIN], frac=0.9, flag=1, same_txid=True))
+    for kind in LEGACY_KINDS:                  # (two legacy inputs: the known one-signature class; the value clauses still count)
+        A(_send_case(rng, "same-txid-signed-legacy", kind, [0, 1], [COIN, COIN], frac=1.0, flag=1, m=1, nkeys=2, same_txid=True))
     # ---- unsigned: the whole product is cheap
     for _ in range(400 if T else 120):
         kind = rng.choice(LEGACY_KINDS + SEGWIT_KINDS)
